@@ -1025,6 +1025,25 @@ def _is_exception(node: ast.AST) -> bool:
     return False
 
 
+def _breaks_out_of(loop: ast.AST) -> bool:
+    """Check if a loop contains a break statement that exits it.
+
+    This includes breaks nested in if, with and try blocks and in else clauses of inner loops,
+    but not those in bodies of inner loops, which exit the inner loop.
+    """
+    nodes = list(loop.body)
+    while nodes:
+        node = nodes.pop()
+        if isinstance(node, ast.Break):
+            return True
+        if isinstance(node, (ast.For, ast.AsyncFor, ast.While)):
+            nodes.extend(node.orelse)
+        elif not isinstance(node, (ast.FunctionDef, ast.AsyncFunctionDef, ast.ClassDef)):
+            nodes.extend(child for child in ast.iter_child_nodes(node) if not isinstance(child, ast.expr))
+
+    return False
+
+
 def is_blocking(node: ast.AST, parent_type: ast.AST = None) -> bool:
     """Check if a node is impossible to get past.
 
@@ -1060,16 +1079,17 @@ def is_blocking(node: ast.AST, parent_type: ast.AST = None) -> bool:
         try:
             test_value = literal_value(node.test)
         except ValueError:
-            pass
-        else:
-            if not test_value:
-                return False
+            return False  # The loop may not be entered at all
 
-            for child in node.body:
-                if isinstance(child, ast.Break):
-                    return False
-                if is_blocking(child, type(node)):
-                    return True
+        if not test_value:
+            return False
+
+        if _breaks_out_of(node):
+            return False
+
+        for child in node.body:
+            if is_blocking(child, type(node)):
+                return True
 
     if isinstance(node, ast.For):
         try:
